@@ -29,7 +29,7 @@ RULE = (
 )
 ASSUMPTIONS = [
     "is_directed=False (the documented default) for point_within_gca; fma_disabled=True (default)",
-    "returned intersection points are compared at 1e-9 rad; extreme latitudes at 1e-12 rad relaxed to the conditioning of asin near a pole",
+    "returned intersection points are compared at 1e-9 rad + 8 eps (1/sin L1 + 1/sin L2) / sin(plane angle) (conditioning of the intersection of two planes given by short arcs); extreme latitudes at 1e-12 rad relaxed to the conditioning of asin near a pole",
     "margin of the property (1e-6 rad) is applied with a factor 2..10 so that float measurement of the margin cannot misclassify",
 ]
 MIN_EVAL = {
@@ -357,7 +357,9 @@ def check_gca(ctx, rng, placement):
                   {"arc1": [a2, b2], "arc2": [c2, d2], "got": [u.tolist() for u in uniq], "want": [X.fvec(w).tolist() for w in w2l], "plane_angle": plane_angle})
         if len(uniq) == len(want) == 1:
             err = X.ang(uniq[0] / np.linalg.norm(uniq[0]), X.fvec(w2l[0]))
-            ctx.check("gca_position", err <= 1e-9 and abs(np.linalg.norm(uniq[0]) - 1) < 1e-9, sig, {"arc1": [a2, b2], "arc2": [c2, d2], "err_rad": err})
+            # conditioning: each plane normal a x b carries a direction error of eps / sin(arc length), their cross product divides by sin(plane angle)
+            ptol = 1e-9 + 8 * 1.2e-16 * (1.0 / math.sin(X.ang(A, B)) + 1.0 / math.sin(w2)) / math.sin(plane_angle)
+            ctx.check("gca_position", err <= ptol and abs(np.linalg.norm(uniq[0]) - 1) < 1e-9, sig, {"arc1": [a2, b2], "arc2": [c2, d2], "err_rad": err, "tol": ptol})
     ctx.check("symmetry", len(set(map(str, results))) == 1, {"fn": "gca_gca_intersection", "expect": len(want), "placement": placement, "angle": angle_class},
               {"arc1": [a, b], "arc2": [c, d], "results": [str(r) for r in results]})
     ctx.observe("gca_expect_%d" % len(want))
